@@ -1118,10 +1118,7 @@ func TestC18(t *testing.T) {
 	}
 	busyMu.Unlock()
 	r.Set("seconds_inside_gnark_by_case_kind(reporting-only)", bs)
-	level := "exploration"
-	if !r.Quick() {
-		level = "fault_enumeration"
-	}
+	level := "exploration" // both tiers: the quick tier samples the element space, and MANIFEST claims one level
 	r.Finish(level,
 		"per curve: domain sizes 2..64 and generated circuits with 0/1/2 commitments; two honest 4-contribution chains per phase, every participant working from bytes; all prefixes (0..4 contributions) must verify, Challenge must equal SHA-256 of the previous serialization, keys of a PRNG-chosen (n1,n2) in 1..4 x 1..4 must prove+verify 3 witnesses and not be interchangeable with single-party keys; must-reject: single-element replacement (neighbour, generator, double, negation, identity, same slot of the parallel chain, same slot of the previous contribution) of elements of one contribution (thorough: every element incl. update proofs under neighbour/generator/double/parallel-chain, the other three classes on all proof elements, small contributions, vector ends and a PRNG quarter; quick: all proof elements + ends + PRNG subset per vector and class), consistent multi-element re-basings and transplanted vectors / update proofs, Challenge edits, reordered/spliced/dropped/duplicated/forked chains, foreign commons / circuit / domain; out-of-subgroup replacement P+T (cofactor torsion) in G1 and G2; ceremonies whose phase-1 domain is 2x / 8x the circuit's minimal domain (honest chain verifies, keys prove and verify, reduced attack set); quick tier: bn254 and bls12-377 in full, one reduced ceremony on each of the other five curves; VERIF_CURVES restricts the curves. distinct = (curve, N or circuit, phase, class, slot or case); non-trivial = the edited bytes differ from the honest ones",
 		[]string{
